@@ -76,6 +76,13 @@ def gen_cases(ctx):
             for vals in itertools.product(alpha, repeat=ln):
                 spec = {"n": ln, "cols": [{"name": "a", "kind": kind, "vals": list(vals)}]}
                 cases.append({"op": "unique", "cols": ["a"], "frame": spec})
+    # several float columns named at once, with infinities of both signs and missing values in the same rows: a row is
+    # dropped exactly when ONE of its named cells is missing — inf is a value, and no arithmetic over the cells decides it
+    for _ in range(30 if ctx.tier == "quick" else 600):
+        ln = rng.choice([2, 3, 5, 8])
+        pool = ["inf", "-inf", "inf", "-inf", 1.0, "nan", -1.5, 9007199254740992.0, -9007199254740992.0]
+        spec = {"n": ln, "cols": [{"name": nm, "kind": "float", "vals": [rng.choice(pool) for _ in range(ln)]} for nm in ("a", "b", "c")[:rng.choice([2, 3])]]}
+        cases.append({"op": "drop_na", "cols": [c["name"] for c in spec["cols"]], "frame": spec})
     n = 900 if ctx.tier == "quick" else 25000
     for _ in range(n):
         cases.append(gen_case(rng, ctx.tier))
